@@ -399,9 +399,97 @@ def r16c(ctx, P):
     ctx.floor(rid, n, 3, "front-end call sites of IndexReader::search")
 
 
+def _float_cast_operands(f, idx_operand):
+    """Operands of FloatToInt casts in the definition chain of an index operand."""
+    out = []
+    work = [op_local(idx_operand)]
+    seen = set()
+    while work:
+        l = work.pop()
+        if l is None or l in seen:
+            continue
+        seen.add(l)
+        for d in f.defs().get(l, []):
+            if d["k"] == "assign":
+                rv = d["rv"]
+                if rv["k"] == "cast" and rv["ck"] == "FloatToInt":
+                    out.append(rv["a"])
+                    continue
+                for o in (rv.get("a"), rv.get("b")):
+                    if isinstance(o, dict):
+                        work.append(op_local(o))
+                if rv["k"] == "agg":
+                    for o in rv["ops"]:
+                        work.append(op_local(o))
+                if rv["k"] in ("ref",):
+                    work.append(rv["place"]["l"])
+    return out
+
+
+def _bounded_float(P, f, operand, depth=0):
+    """The float value is bounded above before the cast: its definition chain contains clamp()/min(), also through one or
+    two levels of parameters (every caller passes a bounded value)."""
+    sl = Slice(f, through_all_calls=True, opaque=lambda c: c.endswith(("::len", "::count")))
+    srcs = sl.sources(operand)
+    if any(x[0] == "call" and callee_of(x[2]).endswith(("::clamp", "::min")) for x in srcs):
+        return True
+    params = {x[1] for x in srcs if x[0] == "arg" and f.arg_ty(x[1]) in ("f64", "f32")}
+    if not params or depth >= 2:
+        return False
+    callers = [(q, b) for (q, b, k) in P.callers().get(f.path, ()) if k == "call"]
+    if not callers:
+        return False
+    for prm in params:
+        for (q, b) in callers:
+            g = P.fns.get(q)
+            if g is None:
+                return False
+            t = g.blocks[b]["term"]
+            if prm - 1 >= len(t["args"]) or not _bounded_float(P, g, t["args"][prm - 1], depth + 1):
+                return False
+    return True
+
+
+def r16d(ctx, P):
+    rid = "R16.d"
+    ctx.rule(rid, "GUARD (targeted bounds rule): every slice / Vec index reachable from IndexReader::search whose value derives from a "
+                  "float-to-integer cast (a position computed from request numbers such as percentiles) has its float bounded above by "
+                  "clamp()/min() before the cast — locally or at every call site handing it in. Other compiler-inserted bounds checks "
+                  "remain undecided")
+    S, entries, reach = entry_set(P)
+    n = 0
+    for p in sorted(reach):
+        f = P.fns[p]
+        if f.crate != "searchlite_core" or is_test_or_bench(f):
+            continue
+        for b in sorted(f.reachable()):
+            t = f.blocks[b]["term"]
+            idx = None
+            if t["k"] == "assert" and "BoundsCheck" in t["msg"]:
+                m = re.search(r"index: (?:copy|move) _(\d+)", t["msg"])
+                if m:
+                    idx = {"cp": {"l": int(m.group(1)), "p": []}}
+            elif t["k"] == "call" and callee_of(t).endswith(("Index<I>>::index", "IndexMut<I>>::index_mut")) and len(t["args"]) > 1:
+                idx = t["args"][1]
+            if idx is None:
+                continue
+            casts = _float_cast_operands(f, idx)
+            if not casts:
+                continue
+            n += 1
+            ctx.saw(f)
+            ok = all(_bounded_float(P, f, c) for c in casts)
+            ctx.ob(rid, "%s:%s:float-derived-index" % (rid, re.sub(r"\{closure#\d+\}", "{closure}", f.short)), ok,
+                   "index at %s comes from a float that is clamped before the cast" % Site(f, b).loc() if ok else
+                   "index at %s comes from a float-to-integer cast of an unbounded value: a request number outside the expected "
+                   "range indexes past the end of the slice and panics" % Site(f, b).loc(), Site(f, b).loc())
+    ctx.floor(rid, n, 3, "float-derived index sites reachable from search")
+
+
 def run(ctx, progs):
     P = progs.get("default")
     r16a(ctx, P)
+    r16d(ctx, P)
     r16b(ctx, P)
     r16c(ctx, P)
     if ctx.tier == "thorough":
